@@ -1,13 +1,31 @@
-"""harness sets for the spline properties"""
-from contracts import rq
+"""harness sets for the spline part of C01 / C02 / C09 / C17 (+ wrappers for C12 / C13)"""
+from contracts.splines import FAMILIES, spline_harness, unconstrained_harness
+
+NOT_DECIDED_CUBIC_INVERSE = ("cubic_spline(inverse=True): the trigonometric three-root branch (atan2/cos/sin + argsort root selection) is outside "
+                             "nonlinear real arithmetic; the cubic inverse is not under contract")
 
 
-def spline_harnesses(props, tier):
-    Ks = (1, 2, 3) if tier == "quick" else (1, 2, 3, 4, 5, 8)
+def Ks(tier, fam):
+    if tier == "quick":
+        return (1, 2, 3)
+    return (1, 2, 3, 4, 5, 8) if fam in ("rq", "linear") else (1, 2, 3, 4, 5)
+
+
+def spline_harnesses(props, tier, wrappers=True, directions=(False, True)):
     hs = []
-    for K in Ks:
-        for inv in (False, True):
-            hs.append(rq.rq_spline_harness(K, inv, props))
-    hs.append(rq.rq_spline_harness(2, False, props, identity_init=True))
-    hs.append(rq.rq_spline_harness(2, True, props, identity_init=True))
+    for name, fam in FAMILIES.items():
+        for K in Ks(tier, name):
+            for inv in directions:
+                if name == "cubic" and inv:
+                    continue
+                if name == "quadratic" and K == 1 and False:
+                    continue
+                hs.append(spline_harness(fam, K, inv, props))
+    for inv in directions:
+        hs.append(spline_harness(FAMILIES["rq"], 2, inv, props, tag=",ident", enable_identity_init=True))
+    if wrappers:
+        for name in FAMILIES:
+            for K in ((2, 3) if tier == "quick" else (2, 3, 5)):
+                for inv in directions:
+                    hs.append(unconstrained_harness(name, K, inv, props))
     return hs
